@@ -155,6 +155,48 @@ func (m *vpMesh) announce() {
 	}
 }
 
+// leftovers lists per-stream bookkeeping (relay tables, handler maps, stream manager) that
+// is not empty right now.
+func (m *vpMesh) leftovers() []string {
+	m.mu.Lock()
+	order := append([]string(nil), m.order...)
+	m.mu.Unlock()
+	var out []string
+	for _, n := range order {
+		a := m.agents[n]
+		for name, rt := range map[string]*relayTable{"tcp": a.tcpRelay, "udp": a.udpRelay, "icmp": a.icmpRelay} {
+			rt.mu.RLock()
+			u, d := len(rt.byUpstream), len(rt.byDownstream)
+			rt.mu.RUnlock()
+			if u != 0 || d != 0 {
+				out = append(out, fmt.Sprintf("%s: %s relay table holds %d upstream / %d downstream entries", n, name, u, d))
+			}
+		}
+		if a.exitHandler != nil && a.exitHandler.ConnectionCount() != 0 {
+			out = append(out, fmt.Sprintf("%s: exit handler counts %d connections", n, a.exitHandler.ConnectionCount()))
+		}
+		if c := a.streamMgr.StreamCount(); c != 0 {
+			out = append(out, fmt.Sprintf("%s: stream manager holds %d streams", n, c))
+		}
+		if c := a.streamMgr.PendingCount(); c != 0 {
+			out = append(out, fmt.Sprintf("%s: stream manager holds %d pending opens", n, c))
+		}
+	}
+	return out
+}
+
+// waitQuiet waits until no agent holds per-stream bookkeeping.
+func (m *vpMesh) waitQuiet(d time.Duration) []string {
+	deadline := time.Now().Add(d)
+	for {
+		l := m.leftovers()
+		if len(l) == 0 || time.Now().After(deadline) {
+			return l
+		}
+		time.Sleep(300 * time.Microsecond)
+	}
+}
+
 func (m *vpMesh) id(name string) identity.AgentID { return m.agents[name].ID() }
 
 func (m *vpMesh) nameOf(id identity.AgentID) string {
